@@ -144,6 +144,12 @@ def listSet {α} (l : List (UInt64 × α)) (k : UInt64) (v : α) : List (UInt64 
 def world (s : State) : World :=
   { st := s.st.get, fs := s.fs.get, cs := { entries := s.cuts, byHash := listLookup s.byHash } }
 
+/-- the cut maps after a lookup pruned `entries` down to `cuts'`: `removeEntryLocked` also drops the
+removed cut's OWN hash slot, and only while it still points at it. -/
+def withCuts (s : State) (cuts' : List Cut) : State :=
+  let gone := s.cuts.filter fun c => !cuts'.contains c
+  { s with cuts := cuts', byHash := s.byHash.filter fun (k, c) => !(gone.contains c && k == cutHash c.name c.qclass) }
+
 def dumpStr (s : State) : String :=
   let a := sortStrings (s.st.map fun (k, e) => s!"{hex16 k}:{e.id}")
   let f := sortStrings (s.fs.map fun (k, e) => s!"{hex16 k}:{e.id}")
@@ -245,18 +251,25 @@ def runRequest (s : State) (route : String) (i : Ident) (client : Scope) (peer :
   | "wire", Name.wire wn =>
     match present wn with
     | some p =>
-      if hasECS then some (queued p true, serveMsgFull H W p i.qtype i.qclass i.cd cs hasECS, p, cs, hasECS)
+      if hasECS then
+        some (withCuts (queued p true) (serveMsgCutsAfter H W p i.qtype i.qclass i.cd cs hasECS),
+              serveMsgFull H W p i.qtype i.qclass i.cd cs hasECS, p, cs, hasECS)
       else
         let core := serveWireCore H W wn i.qtype i.qclass i.cd (due s)
-        some (queued p core.isNone, serveWireFull H W wn i.qtype i.qclass i.cd (due s), p, cs, hasECS)
+        some (withCuts (queued p core.isNone) (serveWireCutsAfter H W wn i.qtype i.qclass i.cd (due s)),
+              serveWireFull H W wn i.qtype i.qclass i.cd (due s), p, cs, hasECS)
     | none => none
   | "msg", n =>
     match n.presentation with
-    | some p => some (queued p true, serveMsgFull H W p i.qtype i.qclass i.cd cs hasECS, p, cs, hasECS)
+    | some p =>
+      some (withCuts (queued p true) (serveMsgCutsAfter H W p i.qtype i.qclass i.cd cs hasECS),
+            serveMsgFull H W p i.qtype i.qclass i.cd cs hasECS, p, cs, hasECS)
     | none => none
   | "store", n =>
     match n.presentation with
-    | some p => some (s, MsgReply.ofOutcome (storeGet H W p i.qtype i.qclass i.cd hasECS), p, cs, hasECS)
+    | some p =>
+      some (withCuts s (storeGetCutsAfter H W p i.qtype i.qclass i.cd hasECS),
+            MsgReply.ofOutcome (storeGet H W p i.qtype i.qclass i.cd hasECS), p, cs, hasECS)
     | none => none
   | _, _ => none
 
@@ -616,9 +629,29 @@ def stepPipe (s : State) (w : List String) : State × String :=
       | "wire", Name.wire wn => (s, sh (cutLookupWire H cs wn i.qclass))
       | "msg", n =>
         match n.presentation with
-        | some p => (s, sh (cutLookup cs p i.qclass))
+        | some p => (withCuts s (cutLookupPrune s.cuts p i.qclass), sh (cutLookup cs p i.qclass))
         | none => (s, "bad-op")
       | _, _ => (s, "bad-op")
+    | none => (s, "bad-op")
+  | ["pipe", "cexp", ids] =>
+    match parseIdent ids with
+    | some i =>
+      match i.name.presentation with
+      | some p =>
+        let n := canonicalName p
+        match findCut s.cuts n i.qclass with
+        | some c =>
+          let ex := fun (x : Cut) => if x.id == c.id then { x with active := false } else x
+          ({ s with cuts := s.cuts.map ex, byHash := s.byHash.map fun (k, x) => (k, ex x) }, "ok")
+        | none => (s, "absent")
+      | none => (s, "bad-op")
+    | none => (s, "bad-op")
+  | ["pipe", "fexp", idn] =>
+    match idn.toNat? with
+    | some id =>
+      if s.fs.any (·.2.id == id) then
+        ({ s with fs := s.fs.map fun (k, f) => (k, if f.id == id then { f with active := false } else f) }, "ok")
+      else (s, "absent")
     | none => (s, "bad-op")
   | _ => (s, "bad-op")
 
